@@ -76,7 +76,12 @@ def run_workers(prop: str, cases: list, timeout: float, per_case_process: bool, 
             done_ids = {r["id"] for r in got}
             missing = [c["id"] for c in shard if c["id"] not in done_ids]
             if missing:
-                tail = open(os.path.join(tmp, f"log_{i}.txt")).read()[-1500:]
+                full = open(os.path.join(tmp, f"log_{i}.txt")).read()
+                tail = full[:2500] + ("\n...\n" + full[-800:] if len(full) > 3300 else "")
+                crashdir = os.path.join(os.environ.get("VERIF_REPLAY_DIR") or os.path.join(HOME, "replays"), "_worker_crashes")
+                os.makedirs(crashdir, exist_ok=True)
+                with open(os.path.join(crashdir, f"{prop}_shard{i}.log"), "w") as cf:
+                    cf.write(full)
                 faults.append({"shard": i, "state": state, "missing": missing[:5], "n_missing": len(missing), "log_tail": tail})
 
         while pending or running:
@@ -96,6 +101,24 @@ def run_workers(prop: str, cases: list, timeout: float, per_case_process: bool, 
         return results, faults
     finally:
         shutil.rmtree(tmp, ignore_errors=True)
+
+
+def run_workers_with_retry(prop, cases, timeout, per_case_process, shards_per_worker):
+    """A worker process that dies (C-level abort in torch's in-process test backend under load, OOM kill) loses the cases it had not
+    reported yet: those are re-run, one process per case, up to two more times.  Crashes that persist stay faults (-> inconclusive)."""
+    results, faults = run_workers(prop, cases, timeout, per_case_process, shards_per_worker)
+    retried = 0
+    for _attempt in range(2):
+        if not faults:
+            break
+        done = {r["id"] for r in results}
+        missing = [c for c in cases if c["id"] not in done]
+        if not missing or len(missing) > max(8, len(cases) // 4):
+            break
+        retried += len(missing)
+        res2, faults = run_workers(prop, missing, timeout, True, 1)
+        results.extend(res2)
+    return results, faults, retried
 
 
 def aggregate(results):
@@ -140,7 +163,7 @@ def main(argv):
     assert len(set(ids)) == len(ids), "case ids must be unique"
 
     timeout = getattr(mod, "TIMEOUT", {"quick": 900, "thorough": 5400})[tier]
-    results, faults = run_workers(prop, cases, timeout, getattr(mod, "PER_CASE_PROCESS", False), getattr(mod, "SHARDS_PER_WORKER", {"quick": 1, "thorough": 3})[tier])
+    results, faults, retried = run_workers_with_retry(prop, cases, timeout, getattr(mod, "PER_CASE_PROCESS", False), getattr(mod, "SHARDS_PER_WORKER", {"quick": 1, "thorough": 3})[tier])
     by_id = {c["id"]: c for c in cases}
 
     metas = [r for r in results if r.get("status") == "meta"]
@@ -222,6 +245,7 @@ def main(argv):
             "cases": len(cases),
             "cases_finished": len(results),
             "workers": WORKERS,
+            "cases_rerun_after_worker_crash": retried,
         }
         if getattr(mod, "EXHAUSTIVE", {}).get(tier):
             cov["exhaustive"] = True
